@@ -69,6 +69,10 @@ impl Code {
 			}
 			if interests.local_variable_table || interests.local_variable_type_table {
 				if let Some(local_variables) = self.local_variables {
+					// like the reader, only deliver the entries of the table(s) the visitor is interested in
+					let local_variables = local_variables.into_iter()
+						.filter(|lv| (lv.descriptor.is_some() && interests.local_variable_table) || (lv.signature.is_some() && interests.local_variable_type_table))
+						.collect();
 					code_visitor.visit_local_variables(local_variables)?;
 				}
 			}
